@@ -302,15 +302,32 @@ func verifyArgsUsed(set *ProviderSet, used []*providerSetSrc) []error {
 			errs = append(errs, fmt.Errorf("unused value of type %s", types.TypeString(v.Out, nil)))
 		}
 	}
-	for _, b := range set.Bindings {
-		found := false
-		for _, u := range used {
-			if u.Binding == b {
-				found = true
-				break
+	// A binding is used if the solver resolved its interface, or if another
+	// used binding is bound to its interface (I2 -> I1 -> *T: the solver goes
+	// from I2 straight to *T, but the binding of I1 is what makes that legal).
+	usedBindings := make(map[*IfaceBinding]bool)
+	for _, u := range used {
+		if u.Binding != nil {
+			usedBindings[u.Binding] = true
+		}
+	}
+	for changed := true; changed; {
+		changed = false
+		for _, b := range set.Bindings {
+			if usedBindings[b] {
+				continue
+			}
+			for _, other := range set.Bindings {
+				if usedBindings[other] && types.Identical(other.Provided, b.Iface) {
+					usedBindings[b] = true
+					changed = true
+					break
+				}
 			}
 		}
-		if !found {
+	}
+	for _, b := range set.Bindings {
+		if !usedBindings[b] {
 			errs = append(errs, fmt.Errorf("unused interface binding to type %s", types.TypeString(b.Iface, nil)))
 		}
 	}
@@ -408,23 +425,37 @@ func buildProviderMap(fset *token.FileSet, hasher typeutil.Hasher, set *Provider
 
 	// Process bindings in set. Must happen after the other providers to
 	// ensure the concrete type is being provided.
-	for _, b := range set.Bindings {
-		src := &providerSetSrc{Binding: b}
-		if prevSrc := srcMap.At(b.Iface); prevSrc != nil {
-			ec.add(bindingConflictError(fset, b.Iface, set, src, prevSrc.(*providerSetSrc)))
-			continue
-		}
-		concrete := providerMap.At(b.Provided)
-		if concrete == nil {
-			setName := set.VarName
-			if setName == "" {
-				setName = "provider set"
+	// A binding may name another bound interface of this set as its concrete
+	// type, whichever of the two is listed first: keep going over the bindings
+	// that could not be resolved yet for as long as that makes progress.
+	pending := set.Bindings
+	for progress := true; progress && len(pending) > 0; {
+		progress = false
+		var unresolved []*IfaceBinding
+		for _, b := range pending {
+			src := &providerSetSrc{Binding: b}
+			if prevSrc := srcMap.At(b.Iface); prevSrc != nil {
+				ec.add(bindingConflictError(fset, b.Iface, set, src, prevSrc.(*providerSetSrc)))
+				progress = true
+				continue
 			}
-			ec.add(notePosition(fset.Position(b.Pos), fmt.Errorf("wire.Bind of concrete type %q to interface %q, but %s does not include a provider for %q", b.Provided, b.Iface, setName, b.Provided)))
-			continue
+			concrete := providerMap.At(b.Provided)
+			if concrete == nil {
+				unresolved = append(unresolved, b)
+				continue
+			}
+			providerMap.Set(b.Iface, concrete)
+			srcMap.Set(b.Iface, src)
+			progress = true
 		}
-		providerMap.Set(b.Iface, concrete)
-		srcMap.Set(b.Iface, src)
+		pending = unresolved
+	}
+	for _, b := range pending {
+		setName := set.VarName
+		if setName == "" {
+			setName = "provider set"
+		}
+		ec.add(notePosition(fset.Position(b.Pos), fmt.Errorf("wire.Bind of concrete type %q to interface %q, but %s does not include a provider for %q", b.Provided, b.Iface, setName, b.Provided)))
 	}
 	if len(ec.errors) > 0 {
 		return nil, nil, ec.errors
